@@ -111,6 +111,11 @@ def search_pose(seed, n, classes=None, methods=None, thresh=2e-6):
                 # special operands: zero translation (pure rotation), identity, and a pose that has been modified in
                 # place after an earlier call (normalize() sign flip / component write): no stale per-object state
                 r = rng.random()
+                if cname == "PoseSE3" and kind == "pose" and 0.25 <= r < 0.33:
+                    # the identity rotation written with q = (0,0,0,-1) (all-zero compact coordinates), with and without translation
+                    b = PoseSE3([0.0, 0.0, 0.0] if r < 0.29 else [rng.uniform(-3, 3) for _ in range(3)], [0.0, 0.0, 0.0, -1.0])
+                if cname == "PoseSE3" and 0.33 <= r < 0.37:
+                    a = PoseSE3([0.0, 0.0, 0.0] if r < 0.35 else [rng.uniform(-3, 3) for _ in range(3)], [0.0, 0.0, 0.0, -1.0])
                 if b is not None and r < 0.25:
                     nb = len(np.asarray(b.position)) if hasattr(b, "position") else 0
                     vals = np.asarray(b).copy()
